@@ -227,6 +227,7 @@ fn build<P: Kmer + 'static>(name: &'static str, _env: &Env) -> Vec<Box<dyn Job>>
     .boxed()]
 }
 
+#[cfg(not(fuzzing))]
 pub fn jobs(env: &Env) -> Vec<Box<dyn Job>> {
     let mut out: Vec<Box<dyn Job>> = Vec::new();
     crate::kmers_small!(build, out, env);
